@@ -4,7 +4,7 @@
 # Exit 2 = harness broken (never a verdict).
 set -u
 export GOFLAGS=-mod=mod GOPROXY=off GOSUMDB=off GOTOOLCHAIN=local CGO_ENABLED=1
-V=/verif
+V=$(cd "$(dirname "${BASH_SOURCE[0]}")/.." && pwd)   # /verif, or a snapshot of it (vp run)
 REPO=${VERIF_REPO:-/repo}
 FLAVOUR=${1:-plain}
 mkdir -p $V/.work $V/.bin
